@@ -13,7 +13,7 @@ Verdict(r) ==
          IF r.L <= 0 THEN (IF r.starts = 0 /\ r.cancelled THEN "ok" ELSE "bad")
          ELSE IF r.starts = 1 /\ r.alarm \in (r.L - 2)..r.L THEN "ok" ELSE "bad"
     [] r.e = "Kill" ->
-         IF KillOk(r.L, r.W, r.wallms, r.jsig, r.jexit) THEN "ok" ELSE "bad"
+         IF (IF "stubborn" \in DOMAIN r /\ r.stubborn THEN StubbornKillOk(r.L, r.W, r.wallms, r.jsig) ELSE KillOk(r.L, r.W, r.wallms, r.jsig, r.jexit)) THEN "ok" ELSE "bad"
     [] r.e = "Req" ->
          (* one request with several VTODOs run by one echsx process: the executor survives and every task *)
          (* meets its own contract, whatever happened to the tasks before it                                *)
